@@ -305,7 +305,13 @@ func doCheck(prop, tier string) int {
 			continue
 		}
 		if oc.Res != nil && oc.Res.Stalled != "" {
+			// no verdict for what was not run - but violations recorded before the stall are kept and decide
 			incon = append(incon, fmt.Sprintf("flavour %s: %s (log %s)", fn, oc.Res.Stalled, oc.Log))
+			if merged == nil {
+				merged = oc.Res
+			} else {
+				mergeResults(merged, oc.Res, fn)
+			}
 			continue
 		}
 		if oc.Res == nil || !oc.Res.Completed {
